@@ -201,3 +201,74 @@ package uePolicyContainer
 //@   ensures implies(100 <= mcc && mcc <= 999 && 10 <= mnc && mnc <= 999, err == nil)
 //@   ensures implies(err == nil, PlmnSet(u, mcc, mnc))
 //@ end
+
+// ---- C18 lemmas (functions of verif_lemmas.go): structures built through the API encode to octets that parse back
+// to equal structures, lengths computed from the content, nothing left in the buffer ----
+// PartOK: the part's length is unset (computed on encoding) or was computed from its contents.
+//@ define PartOK(p) := (len(p.UEPolicyPartContents) <= 10000 && (p.Len == 0 || int(p.Len) == 1 + len(p.UEPolicyPartContents)))
+//@ define PartEq(q, p) := (int(q.Len) == 1 + len(p.UEPolicyPartContents) && q.UEPolicyPartType.Octet == p.UEPolicyPartType.Octet && eqmem(q.UEPolicyPartContents, p.UEPolicyPartContents))
+//@ define PlmnArgs(mcc, mnc) := (100 <= mcc && mcc <= 999 && 10 <= mnc && mnc <= 999)
+
+//@ func verifLemmaPolicyPart(p) (q, rest, err)
+//@   requires PartOK(p)
+//@   ensures err == nil && q != nil && rest == 0
+//@   ensures PartEq(q, p)
+//@ end
+
+//@ func verifLemmaResult(r) (q, rest, err)
+//@   ensures err == nil && q != nil && rest == 0
+//@   ensures q.Upsc == r.Upsc && q.FailInstructionOrder == r.FailInstructionOrder && q.Cause == 0x6f
+//@ end
+
+//@ func verifLemmaInstruction2(upsc, p0, p1) (q, rest, err)
+//@   requires PartOK(p0) && PartOK(p1)
+//@   ensures err == nil && q != nil && rest == 0
+//@   ensures q.Upsc == upsc && int(q.Len) == 2 + 6 + len(p0.UEPolicyPartContents) + len(p1.UEPolicyPartContents)
+//@   ensures len(q.UEPolicySectionContents) == 2 && PartEq(q.UEPolicySectionContents[0], p0) && PartEq(q.UEPolicySectionContents[1], p1)
+//@ end
+
+//@ func verifLemmaSubList(mcc, mnc, upsc, p0) (q, rest, err)
+//@   requires PartOK(p0) && PlmnArgs(mcc, mnc)
+//@   ensures err == nil && q != nil && rest == 0
+//@   ensures int(q.Len) == 3 + 4 + 3 + len(p0.UEPolicyPartContents) && PlmnSet(q, mcc, mnc)
+//@   ensures len(q.UEPolicySectionManagementSubListContents) == 1 && q.UEPolicySectionManagementSubListContents[0].Upsc == upsc && int(q.UEPolicySectionManagementSubListContents[0].Len) == 2 + 3 + len(p0.UEPolicyPartContents)
+//@   ensures len(q.UEPolicySectionManagementSubListContents[0].UEPolicySectionContents) == 1 && PartEq(q.UEPolicySectionManagementSubListContents[0].UEPolicySectionContents[0], p0)
+//@ end
+
+//@ define Part1(l, k) := l[k].UEPolicySectionManagementSubListContents[0].UEPolicySectionContents[0]
+//@ func verifLemmaList2(mcc0, mnc0, mcc1, mnc1, upsc0, upsc1, t0, t1, c0, c1) (got, err)
+//@   requires PlmnArgs(mcc0, mnc0) && PlmnArgs(mcc1, mnc1)
+//@   ensures err == nil && len(got) == 2
+//@   ensures PlmnSet(got[0], mcc0, mnc0) && PlmnSet(got[1], mcc1, mnc1)
+//@   ensures got[0].Len == 12 && got[1].Len == 13
+//@   ensures len(got[0].UEPolicySectionManagementSubListContents) == 1 && got[0].UEPolicySectionManagementSubListContents[0].Upsc == upsc0 && got[0].UEPolicySectionManagementSubListContents[0].Len == 7
+//@   ensures len(got[1].UEPolicySectionManagementSubListContents) == 1 && got[1].UEPolicySectionManagementSubListContents[0].Upsc == upsc1 && got[1].UEPolicySectionManagementSubListContents[0].Len == 8
+//@   ensures len(got[0].UEPolicySectionManagementSubListContents[0].UEPolicySectionContents) == 1 && Part1(got, 0).Len == 3 && Part1(got, 0).UEPolicyPartType.Octet == t0 && len(Part1(got, 0).UEPolicyPartContents) == 2 && Part1(got, 0).UEPolicyPartContents[0] == c0[0] && Part1(got, 0).UEPolicyPartContents[1] == c0[1]
+//@   ensures len(got[1].UEPolicySectionManagementSubListContents[0].UEPolicySectionContents) == 1 && Part1(got, 1).Len == 4 && Part1(got, 1).UEPolicyPartType.Octet == t1 && len(Part1(got, 1).UEPolicyPartContents) == 3 && Part1(got, 1).UEPolicyPartContents[0] == c1[0] && Part1(got, 1).UEPolicyPartContents[1] == c1[1] && Part1(got, 1).UEPolicyPartContents[2] == c1[2]
+//@ end
+
+//@ func verifLemmaSubResult2(mcc, mnc, r0, r1) (q, rest, err)
+//@   requires PlmnArgs(mcc, mnc)
+//@   ensures err == nil && q != nil && rest == 0
+//@   ensures q.Len == 13 && PlmnSet(q, mcc, mnc) && len(q.UEPolicySectionManagementSubResultContents) == 2
+//@   ensures q.UEPolicySectionManagementSubResultContents[0].Upsc == r0.Upsc && q.UEPolicySectionManagementSubResultContents[0].FailInstructionOrder == r0.FailInstructionOrder && q.UEPolicySectionManagementSubResultContents[0].Cause == 0x6f
+//@   ensures q.UEPolicySectionManagementSubResultContents[1].Upsc == r1.Upsc && q.UEPolicySectionManagementSubResultContents[1].FailInstructionOrder == r1.FailInstructionOrder && q.UEPolicySectionManagementSubResultContents[1].Cause == 0x6f
+//@ end
+
+// Delivery messages: PTI, message type, then for a command the section management list (identifier, 2-octet length,
+// contents) and the optional 4-octet network classmark; for a reject the section management result.
+//@ define CmdOK(u) := (u.Octet[1] == 1 && u.ManageUEPolicyCommand != nil && u.ManageUEPolicyCommand.UePolicyDeliveryServiceMsgType.Octet == 1 && int(u.ManageUEPolicyCommand.UEPolicySectionManagementList.Len) == len(u.ManageUEPolicyCommand.UEPolicySectionManagementList.Buffer))
+//@ define CplOK(u) := (u.Octet[1] == 2 && u.ManageUEPolicyComplete != nil && u.ManageUEPolicyComplete.UePolicyDeliveryServiceMsgType.Octet == 2)
+//@ define RejOK(u) := (u.Octet[1] == 3 && u.ManageUEPolicyReject != nil && u.ManageUEPolicyReject.UePolicyDeliveryServiceMsgType.Octet == 3 && int(u.ManageUEPolicyReject.UEPolicySectionManagementResult.Len) == len(u.ManageUEPolicyReject.UEPolicySectionManagementResult.Buffer))
+//@ func verifLemmaMessage(u) (v, b, err)
+//@   requires u != nil && (CmdOK(u) || CplOK(u) || RejOK(u))
+//@   ensures err == nil && v != nil && v.Octet[0] == b[0] && v.Octet[1] == u.Octet[1]
+//@   ensures implies(CmdOK(u), v.ManageUEPolicyCommand != nil && v.ManageUEPolicyCommand.PTI.Octet == u.ManageUEPolicyCommand.PTI.Octet && v.ManageUEPolicyCommand.UePolicyDeliveryServiceMsgType.Octet == 1)
+//@   ensures implies(CmdOK(u), v.ManageUEPolicyCommand.UEPolicySectionManagementList.Iei == u.ManageUEPolicyCommand.UEPolicySectionManagementList.Iei && v.ManageUEPolicyCommand.UEPolicySectionManagementList.Len == u.ManageUEPolicyCommand.UEPolicySectionManagementList.Len && eqmem(v.ManageUEPolicyCommand.UEPolicySectionManagementList.Buffer, u.ManageUEPolicyCommand.UEPolicySectionManagementList.Buffer))
+//@   ensures implies(CmdOK(u) && u.ManageUEPolicyCommand.UEPolicyNetworkClassmark == nil, v.ManageUEPolicyCommand.UEPolicyNetworkClassmark == nil && len(b) == 5 + len(u.ManageUEPolicyCommand.UEPolicySectionManagementList.Buffer))
+//@   ensures implies(CmdOK(u) && u.ManageUEPolicyCommand.UEPolicyNetworkClassmark != nil, v.ManageUEPolicyCommand.UEPolicyNetworkClassmark != nil && len(b) == 9 + len(u.ManageUEPolicyCommand.UEPolicySectionManagementList.Buffer) && v.ManageUEPolicyCommand.UEPolicyNetworkClassmark.Iei == u.ManageUEPolicyCommand.UEPolicyNetworkClassmark.Iei && v.ManageUEPolicyCommand.UEPolicyNetworkClassmark.Len == u.ManageUEPolicyCommand.UEPolicyNetworkClassmark.Len && v.ManageUEPolicyCommand.UEPolicyNetworkClassmark.NSSUI == u.ManageUEPolicyCommand.UEPolicyNetworkClassmark.NSSUI && v.ManageUEPolicyCommand.UEPolicyNetworkClassmark.Spare == u.ManageUEPolicyCommand.UEPolicyNetworkClassmark.Spare)
+//@   ensures implies(CmdOK(u), b[0] == u.ManageUEPolicyCommand.PTI.Octet && b[1] == 1 && b[2] == u.ManageUEPolicyCommand.UEPolicySectionManagementList.Iei && b[3] == uint8(u.ManageUEPolicyCommand.UEPolicySectionManagementList.Len >> 8) && b[4] == uint8(u.ManageUEPolicyCommand.UEPolicySectionManagementList.Len))
+//@   ensures implies(CplOK(u), len(b) == 2 && v.ManageUEPolicyComplete != nil && v.ManageUEPolicyComplete.PTI.Octet == u.ManageUEPolicyComplete.PTI.Octet && v.ManageUEPolicyComplete.UePolicyDeliveryServiceMsgType.Octet == 2)
+//@   ensures implies(RejOK(u), len(b) == 5 + len(u.ManageUEPolicyReject.UEPolicySectionManagementResult.Buffer) && v.ManageUEPolicyReject != nil && v.ManageUEPolicyReject.PTI.Octet == u.ManageUEPolicyReject.PTI.Octet && v.ManageUEPolicyReject.UePolicyDeliveryServiceMsgType.Octet == 3)
+//@   ensures implies(RejOK(u), v.ManageUEPolicyReject.UEPolicySectionManagementResult.Iei == u.ManageUEPolicyReject.UEPolicySectionManagementResult.Iei && v.ManageUEPolicyReject.UEPolicySectionManagementResult.Len == u.ManageUEPolicyReject.UEPolicySectionManagementResult.Len && eqmem(v.ManageUEPolicyReject.UEPolicySectionManagementResult.Buffer, u.ManageUEPolicyReject.UEPolicySectionManagementResult.Buffer))
+//@ end
